@@ -48,7 +48,7 @@ ASSUMPTIONS = [
     "with the documented InsufficientResourceError: over-conservative, not "
     "infeasible, so it is outside the success clause and not reported)",
 ]
-FLOORS = {"order_given_as_iter": 20, "order_given_as_tuple": 20, "temperature_callback_placement": 200, "stopped_by_callback": 20,
+FLOORS = {"generator_at_the_ends_of_its_range": 200, "order_given_as_iter": 20, "order_given_as_tuple": 20, "temperature_callback_placement": 200, "stopped_by_callback": 20,
           "feasibility_checked": 300, "easy_must_succeed": 100,
           "kernel_quiescent_invariant": 200, "c_kernel_under_asan": 20,
           "documented_error": 20}
@@ -91,6 +91,48 @@ def setup(tier):
             _rig_c_sa.__file__)) == os.path.realpath(d)
     else:
         _asan["on"] = False
+
+
+class HostileRandom(_random.Random):
+    """A random.Random whose two primitives return, for most draws, the
+    lowest or the highest value they can (0.0 / 1 - 2**-53, all bits clear /
+    all bits set) - every outcome of a generator is an outcome the placer has
+    to cope with.  Never more than two "all bits set" in a row, so that the
+    standard library's own rejection loops (randrange, choice, shuffle)
+    terminate."""
+
+    def __init__(self, seed):
+        super().__init__(seed)
+        self._n = 0
+        self._pat = (seed * 2654435761) & 0xffffff
+
+    def _mode(self):
+        self._n += 1
+        if self._n % 7 == 0:
+            return None                     # an ordinary draw
+        hi = self._pat >> (self._n % 24) & 1
+        if hi and self._n % 3 == 0:
+            hi = 0
+        return hi
+
+    def random(self):
+        m = self._mode()
+        if m is None:
+            return super().random()
+        return 1.0 - 2.0 ** -53 if m else 0.0
+
+    def getrandbits(self, k):
+        m = self._mode()
+        if m is None:
+            return super().getrandbits(k)
+        return (1 << k) - 1 if m else 0
+
+
+def hostile_random(ctx, seed):
+    if seed % 6:
+        return _random.Random(seed)
+    ctx.hit("generator_at_the_ends_of_its_range")
+    return HostileRandom(seed)
 
 
 def plan(tier):
@@ -505,12 +547,12 @@ def run(case, ctx):
             if stop_after and stats["temperature_steps"] >= stop_after:
                 stats["stopped"] = 1
                 return False
-        kw = dict(effort=kw["effort"], random=_random.Random(kw["seed"]),
+        kw = dict(effort=kw["effort"], random=hostile_random(ctx, kw["seed"]),
                   kernel=monitored(k, ctx, stats, placer),
                   on_temperature_change=on_temperature_change)
     elif placer == "rand":
         fn = imp("rig.place_and_route.place.rand").place
-        kw = dict(random=_random.Random(kw["seed"]))
+        kw = dict(random=hostile_random(ctx, kw["seed"]))
     else:
         fn = imp("rig.place_and_route.place." + placer).place
         kw = {k_: ([tuple(c) for c in v] if k_ == "chip_order" and v else v)
